@@ -314,4 +314,53 @@ def validateAssets (d : ADoc) : Bool := validateAssetsWith true d
 /-- the code before the F-18j repair: every pool needed a registered token. Kept for the regression theorems. -/
 def validateAssetsPreFix (d : ADoc) : Bool := validateAssetsWith false d
 
+/-! ## the readers that look a pool up for a delegation row
+
+x/delegation keeps one row per (staker, asset, operator) under `stakerID/assetID/operator`; UpdateDelegationState never
+deletes it (a row whose share and pending amount are both zero stays: the source carries a todo about it), and
+x/assets UpdateOperatorAssetState never deletes a pool row either. AllDelegatedInfoForStakerAsset,
+TotalDelegatedAmountForStakerAsset (x/delegation) and CalculateUSDValueForStaker (x/operator; the staker's weight in
+x/feedistribution AllocateTokensToStakers) walk the delegation rows of a staker and look the pool of EVERY row up:
+a missing pool row is ErrNoOperatorAssetKey for the whole question. -/
+
+/-- one row of x/delegation's KeyPrefixRestakerDelegationInfo store; `share` = UndelegatableShare (raw LegacyDec) -/
+structure DelegRow where
+  staker : String
+  asset : String
+  operator : String
+  share : Int
+  pending : Int
+deriving DecidableEq, Repr, Inhabited
+
+def DelegRow.key (r : DelegRow) : String := r.staker ++ "/" ++ r.asset ++ "/" ++ r.operator
+
+/-- x/assets/keeper/operator_asset.go: GetOperatorSpecifiedAssetInfo — `none` = ErrNoOperatorAssetKey -/
+def getOperatorAssetInfo (s : Assets) (operator asset : String) : Option OpRow :=
+  ssGet (joinKey operator asset) s.opAssets
+
+/-- x/delegation/keeper/share.go: TokensFromShares on raw LegacyDec shares (`none` = ErrInsufficientShares /
+    ErrDivisorIsZero): stakerShare.MulInt(totalAmount).QuoTruncate(totalShare).TruncateInt() -/
+def tokensFromShares (share totalShare totalAmount : Int) : Option Int :=
+  if share > totalShare then none
+  else if totalShare = 0 then (if totalAmount = 0 then some 0 else none)
+  else some (Int.tdiv (Int.tdiv (share * totalAmount * 1000000000000000000) totalShare) 1000000000000000000)
+
+/-- what the body of the readers' closure computes for one delegation row: the pool of the row and the amount the row's
+    share stands for; `none` = the pool has no row (the reader returns ErrNoOperatorAssetKey) -/
+def poolOfRow (s : Assets) (r : DelegRow) : Option (OpRow × Option Int) :=
+  (getOperatorAssetInfo s r.operator r.asset).map (fun p => (p, tokensFromShares r.share p.totalShare p.total))
+
+/-- x/delegation/keeper/delegation_state.go: AllDelegatedInfoForStakerAsset over the rows of one (staker, asset) in store
+    order: operator ↦ amount; the first missing pool / failed conversion is the error of the whole call (`none`) -/
+def delegatedInfo (s : Assets) : List DelegRow → Option (List (String × Int))
+  | [] => some []
+  | r :: rs =>
+    match poolOfRow s r with
+    | some (_, some amt) => (delegatedInfo s rs).map (fun l => (r.operator, amt) :: l)
+    | _ => none
+
+/-- every delegation row has its pool row: what DelegateTo establishes (it writes both) and no writer undoes -/
+def PoolsCover (s : Assets) (rows : List DelegRow) : Prop :=
+  ∀ r ∈ rows, (getOperatorAssetInfo s r.operator r.asset).isSome = true
+
 end ExoVerif.Genesis
